@@ -241,9 +241,11 @@ let handle (line : string) : unit =
   Buffer.clear b;
   (match parse line with
    | S (A "run" :: f) ->
-     let (_, p) = prog_of f in
+     let (ds, p) = prog_of f in
      let sched = L.map action_ (field "sched" f) in
      let r = run_case p sched in
+     let bs = L.map snd (L.map node_ (field "nodes" f)) in
+     let (is_plain, orders_valid) = plain_hyps_case ds bs (L.map kv_ (field "input" f)) p in
      pr "{\"outcome\":"; pmain r.r_main;
      pr ",\"deadlock\":"; pbool r.r_deadlock;
      pr ",\"trace\":"; plist pobs r.r_trace;
@@ -254,6 +256,8 @@ let handle (line : string) : unit =
      pr ",\"ready\":"; pi (int_of_nat r.r_ready);
      pr ",\"pending\":"; plist pgate r.r_pending;
      pr ",\"fuel\":"; pbool r.r_fuel;
+     pr ",\"plain\":"; pbool is_plain;
+     pr ",\"orders_valid\":"; pbool orders_valid;
      pr "}"
    | S (A "modelcheck" :: f) ->
      let (_, p) = prog_of f in
